@@ -24,9 +24,9 @@ func runPushScenario(c *Ctx, cooked bool, nops int, qlens []int) {
 	held := map[int]bool{}
 	next := 400
 	seq := 0
-	handed := map[int]int{}   // seq -> pipe
-	lastOn := map[int]int{}   // pipe -> last seq handed
-	callSeq := map[int]int{}  // call -> seq
+	handed := map[int]int{}  // seq -> pipe
+	lastOn := map[int]int{}  // pipe -> last seq handed
+	callSeq := map[int]int{} // call -> seq
 	parkedCalls := map[int]bool{}
 	qlen := 128
 	look := func() {
@@ -132,9 +132,9 @@ func runPullScenario(c *Ctx, cooked bool, nops int) {
 	e := NewExec(c, "m.pull", proto, "pull")
 	pipes := []int{}
 	next := 500
-	pseq := map[int]int{}  // per-pipe sequence
-	last := map[int]int{}  // per-pipe last seq received
-	pending := 0           // injected and not yet received
+	pseq := map[int]int{} // per-pipe sequence
+	last := map[int]int{} // per-pipe last seq received
+	pending := 0          // injected and not yet received
 	look := func() {
 		for _, ev := range splitEvents(lastObs(e)) {
 			if ev.kind == "ret" && ev.msg != nil && len(ev.msg) >= 3 {
